@@ -63,6 +63,10 @@ func (t *token) rename(v string) {
 }
 
 func (t *token) Int() int {
+	// (a minus sign folded into the literal applies to the number in whatever base it is written)
+	if len(t.Text) > 1 && t.Text[0] == '-' {
+		return -(&token{Text: t.Text[1:]}).Int()
+	}
 	if len(t.Text) > 2 && t.Text[:2] == "0x" {
 		v, err := strconv.ParseInt(t.Text[2:], 16, 0)
 		if err != nil {
